@@ -225,7 +225,8 @@ def c_parts(case, obs):
     return {'span': lc.c_span(case['span']),
             'data': lib.clist(lib.cZ(10 + i) for i in range(n)), 'other': lib.clist(lib.cZ(50 + i) for i in range(n)),
             'bl0': lib.clist('(Ret (RScalar %s))' % lib.cZ(10 + i) for i in range(n)),
-            'op': c_op(case['op']), 'out': out, 'after': lib.clist(lib.cZ(x) for x in obs['after']), 'byl': lib.clist(byl)}
+            'op': c_op(case['op']), 'out': out, 'after': lib.clist(lib.cZ(x) for x in obs['after']), 'byl': lib.clist(byl),
+            'same': lib.cbool(obs['same_array'])}
 
 
 def c_case(case, obs):
@@ -234,7 +235,7 @@ def c_case(case, obs):
     if t is None:
         return None
     tbl, ins = lc.c_tables(obs.get('pd', []))
-    return '(mkLCase %s %s %s %s %s %s (mkLObs %s %s %s))' % (t['span'], tbl, ins, t['data'], t['other'], t['op'], t['out'], t['after'], t['byl'])
+    return '(mkLCase %s %s %s %s %s %s (mkLObs %s %s %s %s))' % (t['span'], tbl, ins, t['data'], t['other'], t['op'], t['out'], t['after'], t['byl'], t['same'])
 
 
 def pd_spec_broken(case, obs):
@@ -299,8 +300,8 @@ def correspond(cases, obs, tag, tier):
         t0 = lst[0][1]
         for k in range(0, len(lst), GROUP):
             chunk = lst[k:k + GROUP]
-            terms = ['(mkLCase sp tb ins d o %s (mkLObs %s %s %s))' % (t['op'], t['out'], 'd' if t['after'] == t['data'] else t['after'],
-                                                                     'bl' if t['byl'] == t['bl0'] else t['byl']) for _, t, _ in chunk]
+            terms = ['(mkLCase sp tb ins d o %s (mkLObs %s %s %s %s))' % (t['op'], t['out'], 'd' if t['after'] == t['data'] else t['after'],
+                                                                        'bl' if t['byl'] == t['bl0'] else t['byl'], t['same']) for _, t, _ in chunk]
             items.append('(let sp := %s in let tb : list (label * loc) := %s in let ins : list (label * bool) := %s in let d : list Z := %s in '
                          'let o : list Z := %s in let bl : list (outcome (rd Z)) := %s in\n [%s])'
                          % (t0['span'], tbl, ins, t0['data'], t0['other'], t0['bl0'], ';\n  '.join(terms)))
